@@ -387,8 +387,8 @@ def r2_admission(ctx):
     ctx.floor('policy paths', n, 3)
 
 
-def r3_byte_accounting(ctx):
-    ctx.set_rule('C07.R3')
+def r3_byte_accounting(ctx, rule='C07.R3'):
+    ctx.set_rule(rule)
     P = ctx.P
     ACC = _acc_role(P)
     writers = P.writers_of_field(ACC, CH + 'Buffer')
@@ -429,8 +429,8 @@ def r3_byte_accounting(ctx):
                   'queued messages leave in FIFO order (enqueue and dequeue use opposite ends)', fe.where(), {'enqueue': ins, 'dequeue': ext})
 
 
-def r4_idle_path(ctx):
-    ctx.set_rule('C07.R4')
+def r4_idle_path(ctx, rule='C07.R4'):
+    ctx.set_rule(rule)
     f = ctx.anchor(CH + 'Channel::send_message')
     if not f:
         return
